@@ -171,7 +171,26 @@ func (c *Ctx) checkGapSafeDeletes(rule string, fMap *types.Var, eng *lockEngine,
 				if guardedByEdge(in, boolValueCond(l.ok)) == nil || c.lockReleasedBetween(l.at, in, lockPath) {
 					continue
 				}
-				c.ok(rule, key, in.Pos(), "the deleted key was looked up (hit) inside the same uninterrupted write-locked region")
+				// the victim must be the entry found: this function itself clears the very scope it found
+				// (a helper that is handed the victim by its caller has to compare identities instead: form b)
+				var found ssa.Value
+				if v, isV := l.at.(ssa.Value); isV && v.Referrers() != nil {
+					for _, r := range *v.Referrers() {
+						if e, isE := r.(*ssa.Extract); isE && e.Index == 0 {
+							found = e
+						}
+					}
+				}
+				clearsFound := false
+				instrsOf(fn, func(i ssa.Instruction) {
+					if call, isCall := i.(*ssa.Call); isCall && staticCallee(call) == clearFn && found != nil && canon(call.Call.Args[0]) == found {
+						clearsFound = true
+					}
+				})
+				if !clearsFound {
+					continue
+				}
+				c.ok(rule, key, in.Pos(), "the deleted key was looked up (hit) inside the same uninterrupted write-locked region, and the entry found is the scope this function clears")
 				return
 			}
 			if okB {
@@ -566,6 +585,36 @@ func (c *Ctx) checkReportBeforeClear(ruleO1, ruleO2 string) {
 				continue
 			}
 			c.ok(ruleO2, key, cl.Pos(), "every path to clearMetrics reports the same scope first")
+			// ... and the closed scope is unregistered: every path to the clear passes a removal from a
+			// registry bucket (a delete, or a call of a function that deletes from a bucket map). A closed
+			// scope that is cleared but stays registered is reported and cleared again by every pass and
+			// is found (and reported, and replaced) again by every later request for its identity.
+			removal := c.newLifter(func(in ssa.Instruction) bool {
+				call, ok := in.(*ssa.Call)
+				if !ok || !isBuiltin(call, "delete") {
+					return false
+				}
+				f, _ := loadedField(call.Call.Args[0])
+				return f == fBucketMap
+			}, 2)
+			overwrite := func(in ssa.Instruction) bool {
+				if removal.May(in) {
+					return true
+				}
+				mu, ok := in.(*ssa.MapUpdate)
+				if !ok {
+					return false
+				}
+				f, _ := loadedField(mu.Map)
+				return f == fBucketMap // the entry is replaced by a new scope
+			}
+			before := reachAvoidingCorr(entry, true, skip, func(i ssa.Instruction) bool { return i == ssa.Instruction(cl) }, removal.May) == nil
+			after := reachAvoiding(cl, false, isReturn, overwrite) == nil
+			if !before && !after {
+				c.bad(ruleO2+"/dropped-after-report", key, cl.Pos(), "a closed scope's metrics are cleared on a path on which its registry entry is not removed: the scope is never dropped (it is reported and cleared again by every pass, and re-acquiring its identity finds it again)", c.describe(cl))
+			} else {
+				c.ok(ruleO2+"/dropped-after-report", key, cl.Pos(), "the scope that is cleared is also removed from its registry bucket")
+			}
 			// O1: the deciding flag sample dominates the report(s)
 			var deciding ssa.Instruction
 			instrsOf(fn, func(in ssa.Instruction) {
